@@ -7,6 +7,11 @@
 //! baton to another enabled thread. Locks are modelled as blocking. The explorer enumerates
 //! choice sequences depth-first with a preemption bound; every execution runs to completion.
 //!
+//! Besides the points announced *before* an operation, the instrumented atomics and cells announce
+//! `Op::Done` right *after* it: a switch there lets another thread run between an instrumented
+//! operation and the next statement of the calling code (a check-then-act over state the hooks do
+//! not see has its window exactly there). `run_once_with(.., post_points = false)` ignores them.
+//!
 //! The scheduler is instance based (looked up through a thread-local), so several explorations can
 //! run in parallel inside one process.
 
@@ -73,6 +78,8 @@ struct Inner {
 pub struct Sched {
     inner: Mutex<Inner>,
     cv: Condvar,
+    /// whether `Op::Done` announcements are scheduling points
+    post_points: bool,
 }
 
 thread_local! {
@@ -85,6 +92,9 @@ const DEADLOCK_PAYLOAD: &str = "__verif_scheduler_abort__";
 fn hook(op: Op, addr: usize) {
     let cur = CURRENT.with(|c| c.borrow().clone());
     if let Some((sched, tid)) = cur {
+        if op == Op::Done && !sched.post_points {
+            return;
+        }
         sched.yield_point(tid, op, addr);
     }
 }
@@ -160,8 +170,9 @@ impl Inner {
 }
 
 impl Sched {
-    fn new(n: usize, prefix: &[u8]) -> Arc<Sched> {
+    fn new(n: usize, prefix: &[u8], post_points: bool) -> Arc<Sched> {
         Arc::new(Sched {
+            post_points,
             inner: Mutex::new(Inner {
                 n,
                 current: None,
@@ -251,9 +262,18 @@ pub fn run_once<R: Send + 'static>(
     prefix: &[u8],
     threads: Vec<Box<dyn FnOnce() -> R + Send + 'static>>,
 ) -> (Vec<ThreadResult<R>>, Trace) {
+    run_once_with(prefix, threads, true)
+}
+
+/// `run_once` with the choice whether the points announced after an operation count.
+pub fn run_once_with<R: Send + 'static>(
+    prefix: &[u8],
+    threads: Vec<Box<dyn FnOnce() -> R + Send + 'static>>,
+    post_points: bool,
+) -> (Vec<ThreadResult<R>>, Trace) {
     install_hook();
     let n = threads.len();
-    let sched = Sched::new(n, prefix);
+    let sched = Sched::new(n, prefix, post_points);
     let mut handles = vec![];
     for (tid, f) in threads.into_iter().enumerate() {
         let sched = sched.clone();
